@@ -165,6 +165,63 @@ func evalC19Shutdown(c c19Shutdown) *Failure {
 	return nil
 }
 
+// c19Unread: the client has sent a request and does not read the reply (the server is blocked writing it) when Stop
+// is called: Stop closes that connection too and its loop ends.
+type c19Unread struct {
+	Cmd    []string `json:"cmd"`
+	Before int      `json:"before"`
+}
+
+func evalC19Unread(c c19Unread) *Failure {
+	srv, _ := newRecServer()
+	srv.SetPort(0)
+	if err := srv.Start(); err != nil {
+		return failf("harness|start", "Start: %v", err)
+	}
+	what := fmt.Sprintf("the client sends %v after %d answered requests and does not read the reply; then Stop", c.Cmd, c.Before)
+	m, err := connsim.NewMulti(srv, 1, serveTimeout())
+	if err != nil {
+		srv.Stop()
+		return failf("harness|multi", "%v", err)
+	}
+	for i := 0; i < c.Before; i++ {
+		if _, _, err := m.Step(0, resp.Cmd("GET", "k").Bytes()); err != nil {
+			srv.Stop()
+			return stallFailure("c19", what)
+		}
+	}
+	m.Conns[0].BlockWrites = true
+	m.Conns[0].Feed(resp.Cmd(c.Cmd...).Bytes())
+	if !m.Conns[0].WaitWriteBlocked(serveTimeout()) {
+		srv.Stop()
+		return failf("harness|not-blocked", "%s: the server did not start writing a reply", what)
+	}
+	stopped := make(chan error, 1)
+	go func() { stopped <- srv.Stop() }()
+	select {
+	case <-stopped:
+	case <-time.After(20 * time.Second):
+		m.Conns[0].UnblockWrites()
+		return failf("c19|stop-hangs", "%s: Stop did not return within 20s", what)
+	}
+	deadline := time.Now().Add(10 * time.Second)
+	for m.Outcome(0) == nil && time.Now().Before(deadline) {
+		time.Sleep(time.Millisecond)
+	}
+	closed, ended := m.Conns[0].Closed(), m.Outcome(0) != nil
+	m.Conns[0].UnblockWrites()
+	if !closed {
+		return failf("c19|client-not-closed|server-stop(reply unread)", "%s: after Stop returned the connection is still open (its loop ended: %v, registry: %d entries)", what, ended, len(srv.Conns()))
+	}
+	if !ended {
+		return failf("c19|goroutine-leak|reply-unread", "%s: 10s after Stop returned the loop of the connection has not ended", what)
+	}
+	if n := len(srv.Conns()); n != 0 {
+		return failf("c19|registry-entry-left|reply-unread", "%s: %d connections are still registered", what, n)
+	}
+	return nil
+}
+
 // (2) real sockets: churn plans
 
 type c19ConnSpec struct {
@@ -585,6 +642,7 @@ func evalC19PlanOnce(p c19Plan, scale int) *Failure {
 func init() {
 	register("c19.scripted", evalC19Scripted)
 	register("c19.shutdown", evalC19Shutdown)
+	register("c19.unread", evalC19Unread)
 	register("c19.plan", evalC19Plan)
 }
 
@@ -607,6 +665,16 @@ func TestC19(t *testing.T) {
 					h.Col.Case(true, []byte(fmt.Sprint("shutdown", c)), "stop-from-inside-a-command")
 					h.Report("c19.shutdown", c, evalC19Shutdown(c))
 				}
+			}
+		}
+	}
+
+	if h.Shard == 0 {
+		for _, cmd := range [][]string{{"QUIT"}, {"PING"}, {"GET", "k"}, {"NOSUCH"}, {"ECHO", strings.Repeat("x", 70000)}} {
+			for _, before := range []int{0, 2} {
+				c := c19Unread{Cmd: cmd, Before: before}
+				h.Col.Case(true, []byte(fmt.Sprint("unread", cmd[0], before)), "reply-unread-at-stop")
+				h.Report("c19.unread", c, evalC19Unread(c))
 			}
 		}
 	}
